@@ -61,13 +61,14 @@ fn split(q: &str) -> Vec<String> {
 fn near_miss(rng: &mut Rng, key: &str) -> String {
     let segs = split(key);
     let (pkg, name) = (segs[..segs.len() - 1].join("."), segs[segs.len() - 1].clone());
-    match rng.below(7) {
+    match rng.below(8) {
         0 => format!("{pkg}.X{name}"),
         1 => format!("{pkg}.{name}X"),
         2 => format!("other.{pkg}.{name}"),
         3 => format!("{pkg}x.{name}"),
         4 if name.len() > 1 => format!("{pkg}.{}", &name[1..]),
         5 => format!("x{pkg}.{name}"),
+        6 => format!("{pkg}.{name}{name}"),
         _ => format!("nope.{name}"),
     }
 }
@@ -161,6 +162,36 @@ pub fn project(rng: &mut Rng, cfg: &ProjCfg) -> Proj {
                 pool.push(simple[1..].to_string());
             }
             pool.push(format!("other.{i}"));
+            // a name the import merely repeats (pkg.FooFoo vs Foo)
+            let h = simple.len() / 2;
+            if simple.len() >= 2 && simple.len() % 2 == 0 && simple[..h] == simple[h..] {
+                pool.push(simple[..h].to_string());
+                if segs.len() > 1 {
+                    pool.push(format!("{}.{}", segs[segs.len() - 2], &simple[..h]));
+                }
+            }
+        }
+        // names other files may forward-declare (declarations are per file: they must not leak)
+        for d in ["Fwd", "Decl", "Fwd2"] {
+            pool.push(d.to_string());
+        }
+        // many imports (with repeats) once in a while
+        if rng.chance(1, 40) {
+            let extra = rng.range(30, 60);
+            let base: Vec<String> = imports.iter().cloned().chain(keys.iter().cloned()).chain((0..6).map(|k| format!("many.Imp{k}"))).collect();
+            for _ in 0..extra {
+                let mut cand = rng.pick(&base).clone();
+                if rng.chance(1, 2) {
+                    cand = format!("many.pkg{}.I{}", rng.below(8), rng.below(12));
+                }
+                if !cfg.allow_ambiguous {
+                    let simple = cand.rsplit('.').next().unwrap().to_string();
+                    if imports.iter().any(|i| *i != cand && i.rsplit('.').next().unwrap() == simple) {
+                        continue;
+                    }
+                }
+                imports.push(cand);
+            }
         }
         for d in &declared {
             pool.push(d.segs.join("."));
@@ -182,7 +213,7 @@ pub fn project(rng: &mut Rng, cfg: &ProjCfg) -> Proj {
         pool.push("Nope".into());
         pool.push("nope.Nope".into());
         let customs: Vec<Vec<String>> = pool.iter().map(|s| split(s)).collect();
-        let gcfg = GenCfg { kind: Some(kind), max_members: cfg.max_members, max_type_depth: cfg.max_type_depth, max_args: 3, customs, ann_num: 1, ann_den: 8, ..GenCfg::default() };
+        let gcfg = GenCfg { kind: Some(kind), max_members: cfg.max_members, max_type_depth: cfg.max_type_depth, max_args: 3, customs, ann_num: 1, ann_den: 8, allow_overflow_codes: true, deep_types: true, big: true, repeat_method_names: true, ..GenCfg::default() };
         let mut item = gen::item(rng, &gcfg);
         item.name = name.clone();
         // method names: bias toward repeats, codes toward repeats (C09)
